@@ -191,7 +191,8 @@ fn states_case<T: Sc>(rng: &mut Rng, case: u64, out: &mut CaseOut) {
             }
         }
         if step < nsteps {
-            let a = wide_alpha(rng, &g.alpha_true);
+            let fresh = wide_alpha(rng, &g.alpha_true);
+            let a = next_alpha(rng, &alpha, fresh);
             prob.set_params(&DVector::from_iterator(a.len(), a.iter().map(|v| T::of(*v))));
         }
     }
